@@ -123,6 +123,24 @@ fn dispatch(req: &J) -> J {
     }
 }
 
+#[repr(C)]
+struct Timespec {
+    tv_sec:  i64,
+    tv_nsec: i64,
+}
+extern "C" {
+    fn clock_gettime(clk: i32, ts: *mut Timespec) -> i32;
+}
+
+/// CPU time consumed by this process (CLOCK_PROCESS_CPUTIME_ID), in seconds.
+fn cpu_seconds() -> f64 {
+    let mut ts = Timespec { tv_sec: 0, tv_nsec: 0 };
+    unsafe {
+        clock_gettime(2, &mut ts);
+    }
+    ts.tv_sec as f64 + ts.tv_nsec as f64 * 1e-9
+}
+
 fn main() {
     std::panic::set_hook(Box::new(|info| {
         let msg = if let Some(s) = info.payload().downcast_ref::<&str>() {
@@ -165,6 +183,7 @@ fn main() {
             }
             None => shim::off(),
         }
+        let mut max_gap = 0.0f64;
         let mut resp = if let Some(p) = shim_problem {
             json!({"class": "harness_error", "msg": p})
         } else {
@@ -178,7 +197,34 @@ fn main() {
                 .spawn(move || dispatch(&req2));
             match handle {
                 Err(e) => json!({"class": "harness_error", "msg": format!("spawn failed: {e}")}),
-                Ok(h) => match h.join() {
+                Ok(h) => match {
+                    // stall detector (opt-in, `stall_cpu_s`): the worker has burnt that many CPU-seconds without a single
+                    // watchdog poll or hook event. CPU time of this process, not wall-clock: load on the machine cannot trip it.
+                    if let Some(limit) = req.get("stall_cpu_s").and_then(J::as_f64) {
+                        let mut last = mon::PROGRESS.load(std::sync::atomic::Ordering::Relaxed);
+                        let mut since = cpu_seconds();
+                        while !h.is_finished() {
+                            std::thread::sleep(std::time::Duration::from_millis(20));
+                            let now = mon::PROGRESS.load(std::sync::atomic::Ordering::Relaxed);
+                            let cpu = cpu_seconds();
+                            if now != last {
+                                max_gap = max_gap.max(cpu - since);
+                                last = now;
+                                since = cpu;
+                            } else if cpu - since >= limit {
+                                let mut out = stdout.lock();
+                                let _ = writeln!(
+                                    out,
+                                    "{}",
+                                    json!({"id": id.clone(), "class": "stall", "cpu_s_without_progress": cpu - since, "progress_events": now})
+                                );
+                                let _ = out.flush();
+                                std::process::exit(0);
+                            }
+                        }
+                    }
+                    h.join()
+                } {
                     Ok(v) => v,
                     Err(_) => {
                         let (msg, file, line) = LAST_PANIC
@@ -192,6 +238,9 @@ fn main() {
             }
         };
         if let Some(o) = resp.as_object_mut() {
+            if req.get("stall_cpu_s").is_some() {
+                o.insert("max_cpu_gap_s".into(), json!(max_gap));
+            }
             o.insert("id".into(), id);
         }
         let mut out = stdout.lock();
